@@ -1,6 +1,6 @@
 (* C03 - Every valid MQTT v5.0 frame is accepted and decoded to the values it carries. *)
 From MQ Require Import Model.Stream Model.Api Proofs.BytesP Proofs.VbP Proofs.WireP Proofs.StreamP Proofs.SpecP
-     Proofs.SpecWireP Proofs.AcceptP Proofs.RoundP Proofs.PropsP Proofs.SpecRoundP Spec.Mqtt5 Spec.Glue.
+     Proofs.SpecWireP Proofs.AcceptP Proofs.RoundP Proofs.PropsP Proofs.SpecRoundP Proofs.SpecUniqP Spec.Mqtt5 Spec.Glue.
 From Coq Require Import Lia.
 
 (* The full statement (Findings/C03_disconnect.v, C03_full) is refuted by
@@ -47,6 +47,32 @@ Print Assumptions C03_valid_frames.
 Theorem C03_spec_consistent : forall f, sframe_ok f -> spec_decode (spec_encode f) = Some f.
 Proof. exact spec_roundtrip. Qed.
 Print Assumptions C03_spec_consistent.
+
+(* ... and nothing else: the strict decoder accepts a byte string exactly
+   when it is the encoding of a valid abstract frame. So "structurally
+   valid MQTT v5.0 control packet" (acceptance by the strict decoder) and
+   "encoding of a valid abstract frame" are the same set of byte strings. *)
+Theorem C03_spec_language : forall d f, spec_decode d = Some f <-> (d = spec_encode f /\ sframe_ok f).
+Proof. exact spec_language. Qed.
+Print Assumptions C03_spec_language.
+
+(* The property over byte sequences: every byte string the strict decoder
+   of the specification accepts - except a DISCONNECT carrying a property
+   other than user properties (known finding D13) - is read by ReadPacket,
+   under any delivery and whatever follows it on the stream, without error,
+   as a packet of the matching type whose accessors are the specification's
+   reading of those bytes. *)
+Theorem C03_every_valid_frame : forall d f, spec_decode d = Some f -> d13_free f ->
+  exists k p,
+    kind_nibble k = af_type f /\ snapshot k p = frame_obs f
+    /\ forall s rest, sbytes s = d ++ rest -> avail (len d) s = true ->
+        exists tr, read_packet s =
+          RP {| r_pkt := Some (k, p); r_err := None; r_rest := sdrop (len d) s; r_trace := tr; r_got := d |}.
+Proof.
+  intros d f Hd Hf. destruct (spec_decode_inv d f Hd) as [-> Hok].
+  apply C03_valid_frames; [apply sframe_frame_ok; assumption|exact (proj2 Hok)].
+Qed.
+Print Assumptions C03_every_valid_frame.
 
 (* the hypothesis is inhabited, and such frames are what the specification's
    strict decoder accepts: a CONNACK with properties out of table order and an
